@@ -65,6 +65,8 @@ def run_rule_cases(variant, groups, wd, name, flags=0, extra_lines_before=(), ha
             cur["scans"][-1][ev["rule"]] = {"verdict": ev["msg"] == "match", "strings": strs}
         elif e == "ScanRet":
             cur["rets"].append(ev["ret"])
+        elif e == "RelocAudit":
+            cur.setdefault("audits", []).append(ev)
     return run, per
 
 
